@@ -295,3 +295,31 @@ Example C17_queue_overflow_loses_oldest :
   let '(q, merged, lost) := q_run (mksq 2 []) [] [] [QPush s1; QPush s2; QPush s3; QDrain] in
   lost = [s1] /\ cm_get merged 1 = None /\ cs_get KClassicReq (cm_lookup merged 2) = 5.
 Proof. vm_compute. repeat split. Qed.
+
+(* ---- the remaining small operations of the two recorders AS TRANSLATED (constructors, clear, the per-client
+   views): a per-client recorder starts empty with the documented limit; clear forgets clients and overflows and
+   a cleared recorder hands the next publication tick nothing and reports zero; the aggregated recorder's
+   per-client views are empty for every address *)
+Require RV.Proofs.CodeRecorders.
+
+Theorem C17_translated_recorder_new_and_clear :
+  RV.Gen.Code.gen_pc_new = Ok ([], 0%N, RV.Gen.Tables.MAX_CLIENTS)
+  /\ (forall st, RV.Gen.Code.gen_pc_clear (pc_clients st) (pc_overflows st)
+                 = Ok (pc_clients (pc_clear st), pc_overflows (pc_clear st))).
+Proof. exact RV.Proofs.CodeRecorders.gen_pc_new_clear_model. Qed.
+Print Assumptions C17_translated_recorder_new_and_clear.
+
+Theorem C17_translated_cleared_recorder_is_empty : forall clients ov,
+  obind (RV.Gen.Code.gen_pc_clear clients ov) (fun s => RV.Gen.Code.gen_pc_iter (fst s)) = Ok []
+  /\ obind (RV.Gen.Code.gen_pc_clear clients ov) (fun s => RV.Gen.Code.gen_pc_total_unique_clients (fst s)) = Ok 0%N
+  /\ obind (RV.Gen.Code.gen_pc_clear clients ov) (fun s => RV.Gen.Code.gen_pc_total_valid_requests (fst s)) = Ok 0%N
+  /\ obind (RV.Gen.Code.gen_pc_clear clients ov) (fun s => RV.Gen.Code.gen_pc_num_overflows (snd s)) = Ok 0%N.
+Proof. exact RV.Proofs.CodeRecorders.gen_pc_cleared_is_empty. Qed.
+Print Assumptions C17_translated_cleared_recorder_is_empty.
+
+Theorem C17_translated_aggregated_has_no_clients : forall a,
+  RV.Gen.Code.gen_agg_total_unique_clients = Ok 0%N
+  /\ RV.Gen.Code.gen_agg_stats_for_client a = Ok None
+  /\ obind RV.Gen.Code.gen_agg_new (fun s => RV.Gen.Code.gen_agg_iter (snd s)) = Ok [].
+Proof. exact RV.Proofs.CodeRecorders.gen_agg_views_model. Qed.
+Print Assumptions C17_translated_aggregated_has_no_clients.
